@@ -34,6 +34,17 @@ impl Driven for D {
          _ => panic!("verif harness: unknown relation {}", rel),
       }
    }
+   fn clear(&mut self, rel: &str) {
+      match rel {
+         "e" => { self.0.e = Default::default(); },
+         "deg" => { self.0.deg = Default::default(); },
+         "maxdeg" => { self.0.maxdeg = Default::default(); },
+         "top" => { self.0.top = Default::default(); },
+         "ntop" => { self.0.ntop = Default::default(); },
+         "cnt2" => { self.0.cnt2 = Default::default(); },
+         _ => panic!("verif harness: unknown relation {}", rel),
+      }
+   }
    fn run(&mut self) { self.0.run(); }
    fn run_timeout(&mut self, nanos: u64) -> Option<bool> { Some(self.0.run_timeout(std::time::Duration::from_nanos(nanos))) }
    fn dump(&self) -> Value {
